@@ -6,6 +6,7 @@ TRUSTED_BASE = [
     'axioms: none (Print Assumptions of every property theorem is re-run and compared with an empty allow-list)',
     'hand-written semantics of the emitted Rust fragment and of arbitrary-int 1.3.0 (coq/theories/Expr.v), validated by differential execution against the compiled code',
     'translator: harness/xlate (syn 2) + harness/bbv/translate.py, purely syntactic; unknown syntax becomes EUnsupported and fails the obligation',
+    'source-slice translator harness/bbv/srcmodel.py (syn JSON of seven small functions in bitbybit/src -> Gallina over N/bool/option); a mistranslation could hide a change to those functions from the slice theorems only (the per-program checks do not use it)',
     'dump hook in /repo (cargo feature verif_hooks): writes the very TokenStream returned to rustc',
     'corpus printers harness/bbv/decls.py (declaration -> Rust text / Coq decl)',
     'rustc 1.95 / cargo for verdicts and compiled behaviour',
@@ -29,6 +30,7 @@ class Ctx:
         self.ws = P.Workspace(tier, seed)
         self.ws.lock()
         try:
+            self.srcslice = P.stage_srcslice(self.ws)
             self.ds = P.stage_corpus(self.ws)
             self.verdicts = P.stage_verdicts(self.ws, self.ds)
             self.xl = P.stage_xlate(self.ws, self.verdicts['dumped'])
@@ -380,6 +382,25 @@ def check_property_(pid, tier, seed):
         chk = T.coqchk()
         if not chk['ok']:
             violations.append((write_replay(pid, {'property': pid, 'kind': 'coqchk', 'result': chk}), ' no-failing-input-found'))
+    # 1b. the macro's own decision functions, translated from its source on this run, against the model's
+    slice_units = [u for u in ctx.srcslice['units'] if pid in u['props']]
+    for u in slice_units:
+        if u['status'] == 'proved':
+            continue
+        if u['status'] == 'untranslatable' and not u.get('witness'):
+            # the function was rewritten into syntax the slice translator does not cover: this extra tie is not available on
+            # this tree; the boundary declarations tried instead all behave as the rules say, and the per-program checks below
+            # (which do not depend on the slice) decide the property
+            print('NOTE property=%s source slice not checked on this tree: %s is not in the translatable subset (%s); %d boundary '
+                  'declarations behave as documented' % (pid, u['label'][4:], u.get('error'), u.get('probes') or 0))
+            continue
+        payload = {'property': pid, 'kind': 'source-slice', 'function': u['label'][4:], 'statement': u['desc'],
+                   'status': u['status'], 'translated_definition': u.get('definition'), 'translation_error': u.get('error'),
+                   'first_argument_where_source_and_model_differ (argument, source, model)': u.get('first_diff'),
+                   'coqc': u.get('coqc'), 'declarations_tried': u.get('probes'), 'witness': u.get('witness'),
+                   'note': 'the function as written in bitbybit/src is no longer proved equal to the function of the model that the '
+                           'theorems of this property are about'}
+        violations.append((write_replay(pid, payload), '' if u.get('witness') else ' no-failing-input-found'))
     # 2. per-program obligations on the real expansions
     obs = collect(ctx, pid)
     failing = [o for o in obs if not o['ok']]
@@ -496,8 +517,9 @@ def check_property_(pid, tier, seed):
                             'deps': [ctx.by_name[n] for n in sorted(P.deps_of(d))]})
         violations.append((write_replay(pid, payload), '' if concrete else ' no-failing-input-found'))
     # 4. evidence
-    n_ob = len(thms) + len(obs)
-    n_ok = thm_ok + len(obs) - len(failing)
+    slice_units = [u for u in slice_units if u['status'] != 'untranslatable' or u.get('witness')]
+    n_ob = len(thms) + len(obs) + len(slice_units)
+    n_ok = thm_ok + len(obs) - len(failing) + sum(1 for u in slice_units if u['status'] == 'proved')
     shapes = set(o['shape'] for o in obs)
     samples = []
     for o in obs[:3]:
@@ -513,6 +535,8 @@ def check_property_(pid, tier, seed):
             'checker_cmd': 'make -C coq (coqc 8.16.1, full .vo build) ; coqc .work/%s/coq/cases_*.v (vm_compute + Qed per shard)' % ctx.ws.key,
             'trusted_base': TRUSTED_BASE,
             'theorems': {n: assum.get(n) for n in thms},
+            'source_slice': [{'function': u['label'][4:], 'statement': u['desc'], 'status': u['status'],
+                              'assumptions': u.get('assumptions')} for u in slice_units],
             'per_program_obligations': len(obs),
             'programs': len(set(o['decl'] for o in obs)),
             'evaluations': len(obs),
